@@ -15,8 +15,11 @@ import traceback
 from typing import Any, Dict, List, Optional
 
 VERIF = os.path.dirname(os.path.dirname(os.path.abspath(__file__)))
-EVIDENCE_DIR = os.path.join(VERIF, 'evidence')
-REPLAY_DIR = os.path.join(VERIF, 'replays')
+# VERIF_OUT redirects evidence and replay files (used by the self-test, which runs the checks against mutated scratch
+# copies of the repository and must not overwrite the evidence of the real tree)
+OUT = os.environ.get('VERIF_OUT', VERIF)
+EVIDENCE_DIR = os.path.join(OUT, 'evidence')
+REPLAY_DIR = os.path.join(OUT, 'replays')
 KNOWN_FINDINGS = os.path.join(VERIF, 'KNOWN_FINDINGS')
 
 
